@@ -612,6 +612,26 @@ def replay(path):
     sys.path.insert(0, ROOT)
     with open(path) as fh:
         rp = json.load(fh)
+    if rp["signature"][0] == "XB":
+        # both backends in fresh processes; this process must not have imported pendulum
+        from tools import build_ext
+
+        ext = build_ext.ensure(build=True)
+        if not ext:
+            print("HARNESS-ERROR: no compiled backend available for the differential: %s" % build_ext.reason)
+            return EXIT_HARNESS
+        (sa, a), (sb, b) = run_procs(_solo_job, [(rp["property"], rp["scenario"], "ext", ext),
+                                                 (rp["property"], rp["scenario"], "py", ext)], timeout=300)
+        if sa != "ok" or sb != "ok":
+            print("HARNESS-ERROR: differential replay failed: %s | %s" % (a, b))
+            return EXIT_HARNESS
+        diff = [{"op_index": i, "ext": x, "py": y} for i, (x, y) in enumerate(zip(a, b)) if x != y][:4]
+        if diff:
+            print("VIOLATION property=%s replay=%s" % (rp["property"], path))
+            print("  reproduced: compiled and pure-Python backends disagree: %s" % json.dumps(diff, default=str)[:700])
+            return EXIT_VIOLATION
+        print("replay %s: backends agree on this tree" % path)
+        return EXIT_OK
     be = rp["scenario"].get("backend")
     if be:
         from tools import build_ext
@@ -619,16 +639,6 @@ def replay(path):
         select_backend(be, build_ext.ensure(build=True) if be == "ext" else None)
     from sim import engine
 
-    if rp["signature"][0] == "XB":
-        from tools import build_ext
-
-        diff = cross_backend_diff(rp["property"], rp["scenario"], build_ext.ensure(build=True))
-        if diff:
-            print("VIOLATION property=%s replay=%s" % (rp["property"], path))
-            print("  reproduced: compiled and pure-Python backends disagree: %s" % json.dumps(diff, default=str)[:700])
-            return EXIT_VIOLATION
-        print("replay %s: backends agree on this tree" % path)
-        return EXIT_OK
     prop = load_prop(rp["property"])
     cold = None
     if rp["scenario"].get("cold"):
